@@ -71,6 +71,26 @@ CHECKS.update({
    ref="DESIGN.md section 4, C19"),
 })
 
+BOUNDED_TECH = "bounded stand-in of a contract the VC generator cannot reach: the contract's runtime meaning is checked exhaustively over a stated finite family on the real code (in-package tests injected with go test -overlay); labelled bounded, not proof"
+CHECKS.update({
+ "C08": dict(level="exploration", technique=BOUNDED_TECH,
+   text="Bounded stand-in (not proof): validate() is compared with the specification 'some reachable production can re-enter itself before consuming a token' (nullable / first-position sets computed as least fixed points, with ~ and lookahead bodies entered without consuming) on every grammar of a finite family of node graphs built directly in-package: tens of thousands of grammars, exhaustively. isLeftRecursive steers a closure-based traversal over a cyclic graph and is outside the VC generator's reach.",
+   note="Bound: one production with <= 4 (thorough 5) nodes, two productions with <= 3 nodes each (thorough 3 and 4), over literal, production reference, sequence, choice, ? * + !, ~, (?= ), (?! ), capture. The consequence 'recursion depth bounded by input length' is a paper lemma. The oracle is an independent fixed-point formulation.",
+   ref="DESIGN.md section 4, C08"),
+ "C14": dict(level="exploration", technique=BOUNDED_TECH,
+   text="Bounded stand-in (not proof): for every grammar of the same finite family (plus a literal that needs escaping) Parser.String() is parsed with the ebnf package; root first, each reachable production defined once, literal / reference / operator counts equal to the grammar's, and print(parse(text)) parses to an equal tree. Language membership and tree equality after a print/parse cycle are not first-order contracts over the printer's code.",
+   note="Bound as for C08 (two productions: <= 2 and <= 3 nodes; thorough: one production <= 5, two <= 3 and <= 3). Union / custom / parseable nodes are not in the family.",
+   ref="DESIGN.md section 4, C14"),
+ "C16": dict(level="exploration", technique=BOUNDED_TECH,
+   text="Bounded stand-in (not proof): for every rule map of a finite family (all action kinds, include nesting, return, back-references, names and patterns with quotes, backslashes, <>& and non-ASCII) the rule set and the built definition are marshalled to JSON, unmarshalled and rebuilt; rule sets must be structurally equal, symbol tables equal, and token streams / errors equal on 12 inputs. encoding/json's behaviour cannot usefully be axiomatised for contracts.",
+   note="Bound: states Root (1-2 rules over a 9-rule alphabet; thorough 16), A (1-3 rules over a reduced alphabet), thorough adds B. That equal compiled tables give equal behaviour on every input follows from StatefulLexer.Next's contract (C03), which is proved.",
+   ref="DESIGN.md section 4, C16"),
+ "C09": dict(level="other", technique="frame obligations from the contract framework (static, per write site) + bounded coherence check of the one shared cache; no schedule is explored",
+   text="This family has no notion of interleaving; the schedule quantifier is not decided. What is decided is the sufficient condition the promise rests on: in every function reachable from Parse*, Lex*, String, ebnf.Parse*, the lexers' Next and the actions, each store / map update / append / copy / delete has the obligation 'the target is allocated in this function or is per-call state, not (reachable from) a shared Parser, Definition, grammar node or package-level value'. The one shared written structure, the back-reference cache (a sync.Map), is checked by a bounded stand-in for coherence: what it returns is independent of what was asked before.",
+   note="Assumed: sync.Map, regexp.Regexp, reflect and text/scanner instances are safe as documented; the provenance classification is intra-procedural and type-based (a write through an interface or into a value handed out by user code is not seen). No data-race detection, no interleavings.",
+   ref="DESIGN.md section 4, C09"),
+})
+
 NOT_APPLICABLE = {
  "C05": "relates two programs (generator output vs runtime lexer) for every rule set: translation validation / differential testing, not expressible as contracts on the generator's functions (DESIGN.md section 4, C05)",
 }
